@@ -47,6 +47,14 @@ class World:
     def run(self, op):  # noqa: C901, PLR0911, PLR0912
         """Returns (outcome signature, result object, argument object)."""
         kind = op["op"]
+        if "h" in op and (op["h"] >= len(self.handles) or self.handles[op["h"]] is None):
+            # the retort this op is about was never made (the replace()/extend() that makes it failed or was interrupted)
+            if kind in ("replace", "extend"):
+                self.hdesc.append(None)
+                self.handles.append(None)
+            elif kind.startswith("get_"):
+                self.callables.append((None, None))
+            return ["skipped"], None, None
         if kind == "load":
             arg = pools.datum(op["d"])
             out, res = outcome(self.handles[op["h"]].load, arg, pools.TYPES[op["t"]])
@@ -96,6 +104,8 @@ class World:
             try:
                 new = pools.apply_step(self.handles[h], base, step)     # (no signature of a whole retort object)
             except BaseException as e:  # noqa: BLE001
+                self.hdesc.append(None)       # keep the numbering of later handles: ops on this one are skipped
+                self.handles.append(None)
                 return ["exc", sig_exc(e)], None, None
             nd = dict(self.hdesc[h])
             nd["chain"] = [*nd.get("chain", []), step]
